@@ -281,8 +281,12 @@ fn pools(c13: bool) -> Vec<(Vec<&'static str>, Vec<&'static str>)> {
         // a separator inside a name against the same string split over two nesting levels
         (vec!["app.log", "app", "log.level", "log", "level"], vec!["value", "threshold"]),
     ];
+    // digits followed by capitals; well-known attribute names (xml:lang only for quick-xml: prefixed)
+    v.push((vec!["title", "X509Data", "Sha256Digest", "IPv4Address", "h1Title", "entry"], vec!["nil", "lang", "unit"]));
     if !c13 {
         v.push((vec!["p:a", "q:b", "c", "p:d"], vec!["xmlns:p", "p:id", "id2", "xmlns:q", "q:k", "xmlns"]));
+        // names with several colons; reserved prefixes
+        v.push((vec!["dc:terms:title", "dc:terms", "item", "a:b:c"], vec!["lang:iso:code", "xml:lang", "xml:space", "xsi:nil", "xmlns:xsi"]));
         // attributes and children may share names with the quick-xml preset ('@' separates them)
         v.push((vec!["a", "b", "id", "type"], vec!["a", "id", "type", "b"]));
     }
@@ -625,6 +629,19 @@ pub fn run(ctx: &mut Ctx, c13: bool) {
         ctx.shards.extend(sh2.finish());
         ctx.meta.push(("x_deserializer_model_cases", J::N(n_cases)));
         ctx.meta.push(("x_deserializer_model_rejects", J::N(n_reject)));
+    }
+    // ---- state carried from call to call on one thread (the programs above were rendered on fresh threads)
+    {
+        let bad: [&[u8]; 6] = [b"<a x=1>", b"<a x='1' x='2'/>", b"<a><b></a>", b"<a><b><c><d x=1/></c></b></a>", b"<a><b x='1' x='2'><c/></b></a>", b"<a><!-- "];
+        let inputs: Vec<Vec<u8>> = (0..(if ctx.thorough { 6000 } else { 2400 })).map(|i| if i % 6 == 5 { b"<a><b/></a>".to_vec() } else { bad[(i * 5) % 6].to_vec() }).collect();
+        let reference: Vec<Vec<u8>> = vec![
+            b"<order id='1'><customer vip='y'><name>n</name></customer><item sku='s'>t</item><item sku='u'/></order>".to_vec(),
+            b"<order id='2' rush='1'><item sku='s'><note>x</note></item></order>".to_vec(),
+        ];
+        if let Some(what) = history_check(&inputs, &reference, 100) {
+            ctx.impl_failures.push(json::obj(vec![("check", json::s("history-dependence")), ("what", json::s(what)), ("documents", J::A(reference.iter().map(|x| json::bytes(x)).collect()))]));
+        }
+        hist.addn("history-check-calls-on-one-thread", inputs.len() as i64);
     }
     hist.addn("programs", progs.len() as i64);
     hist.addn("deserializations-run", n_runs);
